@@ -49,20 +49,24 @@ func knownQueryKind(k string) bool {
 	return false
 }
 
-// queryInvalid: Query.Validate documents an error for the kind.
-func queryInvalid(kind string) bool {
+// queryInvalid: Query.Validate documents an error for the kind. A CacheClient
+// installs its own handler (the application's is optional there), so the two
+// handler kinds are valid queries for it.
+func queryInvalid(kind string, cache bool) bool {
 	switch kind {
-	case "unknown", "no-addrs", "no-queries", "no-handler", "two-handlers", "bad-credentials":
+	case "unknown", "no-addrs", "no-queries", "bad-credentials":
 		return true
+	case "no-handler", "two-handlers":
+		return !cache
 	}
 	return false
 }
 
 // queryRefused: the client (plain = BaseClient/CacheClient itself, otherwise
 // the reconnecting wrapper) documents that Subscribe fails at once.
-func queryRefused(kind string, plain bool) bool {
+func queryRefused(kind string, plain, cache bool) bool {
 	if plain {
-		return queryInvalid(kind)
+		return queryInvalid(kind, cache)
 	}
 	return kind == "once" || kind == "unknown"
 }
